@@ -26,6 +26,7 @@ import NGF.Model.InjJudge
 import NGF.Proofs.Regex
 import NGF.Proofs.NginxLexHoles
 import NGF.Proofs.InjBridge
+import NGF.Proofs.InjCompose
 
 
 namespace NGF.Props.C04
@@ -230,9 +231,150 @@ theorem filter_path_hole_safe_partial {st : LexSt} {v post : List Char} (hm : st
       simp only [Bool.not_eq_true', List.contains_eq_mem, decide_eq_false_iff_not] at h2
       exact h2 hd
 
-/-- the repaired filter-path validator (candidate repair, see notes/C04.md): also reject backslashes -/
-def validatePathRepaired (s : List Char) : Bool := validatePath s && !s.contains '\\'
+/-! ### arguments composed in Go (servers.go), partial in the same way -/
 
+theorem path_inert {path : List Char} (hp : G.pathRe.test path = true) (hb : '\\' ∉ path) :
+    Inert .bare path ∧ ∃ t, path = '/' :: t := by
+  obtain ⟨⟨t, rfl⟩, hc⟩ := pathRe_chars hp
+  refine ⟨inert_of_all_plain ?_, t, rfl⟩
+  intro c hcm
+  obtain ⟨h1, h2, h3, _⟩ := hc c hcm
+  exact ⟨by simp [isTerm, h1, h2, h3], fun e => hb (e ▸ hcm)⟩
+
+/-- shape of the two arguments of the prefix-match rewrite: `^` ++ path ++ literal, prefix ++ literal -/
+theorem prefixRewriteArgs_shape (repl path : List Char) :
+    ∃ lit1 lit2 fp, (prefixRewriteArgs repl path).1 = '^' :: (path ++ lit1) ∧
+      (prefixRewriteArgs repl path).2 = fp ++ lit2 ∧ allPlainFor .bare lit1 = true ∧ allPlainFor .bare lit2 = true ∧
+      ((repl = [] ∧ fp = ['/']) ∨ (repl ≠ [] ∧ fp = repl)) := by
+  have hfp : ∃ fp, (if repl.isEmpty then ['/'] else repl) = fp ∧ ((repl = [] ∧ fp = ['/']) ∨ (repl ≠ [] ∧ fp = repl)) := by
+    cases repl with
+    | nil => exact ⟨['/'], rfl, .inl ⟨rfl, rfl⟩⟩
+    | cons c t => exact ⟨c :: t, rfl, .inr ⟨by simp, rfl⟩⟩
+  obtain ⟨fp, hfpe, hfpc⟩ := hfp
+  simp only [prefixRewriteArgs, hfpe]
+  by_cases h1 : (endsSlash fp && !endsSlash path) = true <;> by_cases h2 : (endsSlash path && !endsSlash fp) = true <;>
+    simp only [h1, h2, if_true, Bool.false_eq_true, if_false]
+  · exact ⟨_, _, fp, rfl, rfl, by decide, by decide, hfpc⟩
+  · exact ⟨_, _, fp, rfl, rfl, by decide, by decide, hfpc⟩
+  · exact ⟨_, _, fp, rfl, rfl, by decide, by decide, hfpc⟩
+  · exact ⟨_, _, fp, rfl, rfl, by decide, by decide, hfpc⟩
+
+/-- **URLRewrite, ReplacePrefixMatch** (`rewrite {{ regex replacement break }};`), partial (no backslash in the match
+path and in the replacement): exactly the two arguments NGF computed, the flag `break`, and `;`. -/
+theorem rewrite_prefix_safe_partial {st : LexSt} {post path repl : List Char} (hm : st.mode = .space)
+    (he : st.esc = false) (hp : validatePathInMatch path = true) (hr : validatePath repl = true)
+    (hbp : '\\' ∉ path) (hbr : '\\' ∉ repl) :
+    lexFrom st (rewriteFilterMain (.pfx repl) path ++ ';' :: post) =
+      prepend [.word (prefixRewriteArgs repl path).1 false, .word (prefixRewriteArgs repl path).2 false,
+          .word "break".toList false, .semi]
+        (lexFrom { st with mode := .space, dollar := false, cur := [], pending := 0 } post) := by
+  simp only [validatePathInMatch, Bool.and_eq_true] at hp
+  obtain ⟨hpi, _⟩ := path_inert hp.2 hbp
+  obtain ⟨lit1, lit2, fp, e1, e2, hl1, hl2, hfp⟩ := prefixRewriteArgs_shape repl path
+  -- the replacement prefix: `/` or the validated replacement
+  have hfpI : ∃ t, fp = '/' :: t ∧ Inert .bare t ∧ '\\' ∉ fp := by
+    rcases hfp with ⟨_, rfl⟩ | ⟨hne, rfl⟩
+    · exact ⟨[], rfl, .nil, by decide⟩
+    · simp only [validatePath, Bool.or_eq_true, Bool.and_eq_true, List.isEmpty_iff] at hr
+      rcases hr with h0 | ⟨h1, _⟩
+      · exact absurd h0 hne
+      · obtain ⟨hi, t, rfl⟩ := path_inert h1 hbr
+        cases hi with
+        | plain _ _ ht => exact ⟨t, rfl, ht, hbr⟩
+  obtain ⟨t2, rfl, ht2, hb2⟩ := hfpI
+  have hw1 : '\\' ∉ '^' :: (path ++ lit1) := by
+    intro h
+    rcases List.mem_cons.mp h with h | h
+    · exact absurd h (by decide)
+    · exact not_mem_append hbp (no_backslash_of_allPlainFor hl1) h
+  have hw2 : '\\' ∉ ('/' :: t2) ++ lit2 := not_mem_append hb2 (no_backslash_of_allPlainFor hl2)
+  have eq : rewriteFilterMain (.pfx repl) path ++ ';' :: post =
+      '^' :: (path ++ lit1) ++ ' ' :: ('/' :: (t2 ++ lit2) ++ ' ' :: ('b' :: "reak".toList ++ ';' :: post)) := by
+    simp only [rewriteFilterMain, mainRewrite, e1, e2]
+    simp [List.append_assoc]
+  have s1 := hole_bare_ws (st := st) (c := '^') (t := path ++ lit1) (w := ' ')
+    (post := '/' :: (t2 ++ lit2) ++ ' ' :: ('b' :: "reak".toList ++ ';' :: post))
+    hm he (by decide) (inert_append hpi (inert_of_allPlainFor hl1)) (by decide)
+  have s2 := hole_bare_ws
+    (st := { st with mode := .space, dollar := false, cur := [], pending := st.pending + 1 }) (c := '/')
+    (t := t2 ++ lit2) (w := ' ') (post := 'b' :: "reak".toList ++ ';' :: post)
+    rfl he (by decide) (inert_append ht2 (inert_of_allPlainFor hl2)) (by decide)
+  have s3 := hole_bare_semi
+    (st := { st with mode := .space, dollar := false, cur := [], pending := st.pending + 1 + 1 }) (c := 'b')
+    (t := "reak".toList) (post := post) rfl he (by decide) (inert_of_allPlainFor (by decide))
+  rw [eq, s1, s2, s3, prepend_prepend, prepend_prepend, unescape_of_no_backslash _ hw1,
+    unescape_of_no_backslash _ (by simpa using hw2), unescape_of_no_backslash _ (by decide), e1, e2]
+  simp
+
+/-- **RequestRedirect, ReplaceFullPath** (`rewrite ^ {{ path }};`), partial: the replacement is non-empty and has no
+backslash. Both hypotheses are needed: see `trailing_backslash_swallows_semicolon` and `empty_replacement_drops_argument`. -/
+theorem rewrite_full_safe_partial {st : LexSt} {post path repl : List Char} (hm : st.mode = .space)
+    (he : st.esc = false) (hr : validatePath repl = true) (hne : repl ≠ []) (hbr : '\\' ∉ repl) :
+    lexFrom st (mainRewrite (.full repl) path ++ ';' :: post) =
+      prepend [.word "^".toList false, .word repl false, .semi]
+        (lexFrom { st with mode := .space, dollar := false, cur := [], pending := 0 } post) := by
+  have eq : mainRewrite (.full repl) path ++ ';' :: post = '^' :: [] ++ ' ' :: (repl ++ ';' :: post) := by
+    simp [mainRewrite]
+  have h2 := (filter_path_hole_safe_partial
+    (st := { st with mode := .space, dollar := false, cur := [], pending := st.pending + 1 }) (post := post)
+    rfl he hr hne hbr).1
+  rw [eq, hole_bare_ws hm he (by decide) .nil (by decide), h2, prepend_prepend]
+  simp [unescape]
+
+/-- with an empty replacement (accepted by validatePath and by the CRD) the argument is simply missing -/
+theorem empty_replacement_drops_argument :
+    validatePath [] = true ∧
+    (lex ("rewrite ".toList ++ mainRewrite (.full []) "/p".toList ++ ";".toList)).toOption =
+      some [.word "rewrite".toList false, .word "^".toList false, .semi] ∧
+    (lex ("rewrite ".toList ++ rewriteFilterMain (.full []) "/p".toList ++ ";".toList)).toOption =
+      some [.word "rewrite".toList false, .word "^".toList false, .word "break".toList false, .semi] := by
+  decide +kernel
+
+/-- **Redirect URL** (`return 30x "{{ body }}";`): for an accepted scheme (http/https or unset) and an accepted or
+unset hostname the composed body is an escaped-string shape, so `dquoted`-hole lexing applies to it. -/
+theorem redirect_body_inert (scheme hostname : Option (List Char)) (port : Option Nat) (hasPath : Bool) (lp : Nat)
+    (hs : ∀ s, scheme = some s → validateRedirectScheme s = true)
+    (hh : ∀ v, hostname = some v → validateEscapedStringNoVarExpansion v = true) :
+    Inert .dq (redirectBody scheme hostname port hasPath lp) := by
+  have hhost : Inert .dq (hostname.getD ['$', 'h', 'o', 's', 't']) := by
+    cases hostname with
+    | none => exact inert_of_allPlainFor (by decide)
+    | some v => exact (escapedStringsNoVarRe_novar (hh v rfl)).1
+  have hdig : ∀ n, Inert .dq (natDigits n) := fun n => inert_of_plain (.inl rfl) (digits_plain n)
+  have hwith : ∀ h, Inert .dq h → Inert .dq (h ++ [':'] ++ natDigits (port.getD lp)) := fun h hi =>
+    inert_append (inert_append hi (inert_of_allPlainFor (by decide))) (hdig _)
+  have hhp : Inert .dq (redirectHostPort scheme (hostname.getD ['$', 'h', 'o', 's', 't']) port lp) := by
+    unfold redirectHostPort
+    cases scheme with
+    | none => exact hwith _ hhost
+    | some s =>
+      simp only
+      split
+      · exact hhost
+      · split
+        · exact hhost
+        · exact hwith _ hhost
+  have hsch : Inert .dq (scheme.getD ['$', 's', 'c', 'h', 'e', 'm', 'e']) := by
+    cases scheme with
+    | none => exact inert_of_allPlainFor (by decide)
+    | some s =>
+      have := hs s rfl
+      simp only [validateRedirectScheme] at this
+      have hmem : String.ofList s ∈ NGF.Generated.Regexes.supportedRedirectSchemes := by simpa using this
+      have : String.ofList s = "http" ∨ String.ofList s = "https" := by
+        simpa [NGF.Generated.Regexes.supportedRedirectSchemes] using hmem
+      rcases this with h | h
+      · have : s = "http".toList := by rw [← h]; simp
+        rw [this]; exact inert_of_allPlainFor (by decide)
+      · have : s = "https".toList := by rw [← h]; simp
+        rw [this]; exact inert_of_allPlainFor (by decide)
+  have htail : Inert .dq (redirectTail hasPath) := by
+    cases hasPath <;> exact inert_of_allPlainFor (by decide)
+  unfold redirectBody
+  exact inert_append (inert_append (inert_append hsch (inert_of_allPlainFor (by decide))) hhp) htail
+
+/-- with the repaired filter-path validator (candidate repair, see notes/C04.md: also reject backslashes) the
+backslash hypothesis disappears -/
 theorem filter_path_hole_safe_repaired {st : LexSt} {v post : List Char} (hm : st.mode = .space)
     (he : st.esc = false) (hv : validatePathRepaired v = true) (hne : v ≠ []) :
     lexFrom st (v ++ ';' :: post) =
@@ -241,6 +383,23 @@ theorem filter_path_hole_safe_repaired {st : LexSt} {v post : List Char} (hm : s
   simp only [validatePathRepaired, Bool.and_eq_true, Bool.not_eq_true', List.contains_eq_mem,
     decide_eq_false_iff_not] at hv
   exact (filter_path_hole_safe_partial hm he hv.1 hne hv.2).1
+
+/-- with both candidate repairs (backslash rejected, empty full-path replacement rendered as `/`) the
+ReplaceFullPath rewrite is two arguments for EVERY accepted replacement -/
+theorem rewrite_full_safe_repaired {st : LexSt} {post path repl : List Char} (hm : st.mode = .space)
+    (he : st.esc = false) (hr : validatePathRepaired repl = true) :
+    lexFrom st (mainRewriteRepaired (.full repl) path ++ ';' :: post) =
+      prepend [.word "^".toList false, .word (if repl = [] then ['/'] else repl) false, .semi]
+        (lexFrom { st with mode := .space, dollar := false, cur := [], pending := 0 } post) := by
+  simp only [validatePathRepaired, Bool.and_eq_true, Bool.not_eq_true', List.contains_eq_mem,
+    decide_eq_false_iff_not] at hr
+  cases repl with
+  | nil =>
+    simp only [mainRewriteRepaired, if_true]
+    exact rewrite_full_safe_partial hm he (by decide) (by simp) (by decide)
+  | cons c t =>
+    simp only [mainRewriteRepaired, reduceCtorEq, if_false]
+    exact rewrite_full_safe_partial hm he hr.1 (by simp) hr.2
 
 /-! ### witnesses: the full-strength statement is false on the current code -/
 
